@@ -121,7 +121,7 @@ def line (r : Val) : String :=
       s!" post={attrShow (getAttr r "value")} intact=1"
     | _ => "-"
   s!"{showVal r} | is={bit (isMissing r)} not={bit (notMissing r)} when={w} bool={bit (truthy r)} " ++
-  s!"eqL={bit (eqMissingLeft r)} eqR={bit (eqMissingRight r)} | attr={attr}"
+  s!"eqL={bit (eqMissingLeft r)} eqR={bit (eqMissingRight r)} valM={bit (validMissing r)} valSM={bit (validStrOrMissing r)} | attr={attr}"
 
 def runCase (ln : String) : String :=
   match Driver.words ln with
